@@ -16,6 +16,9 @@ claimed = {
  "C18": ("Deductive proof, for all inputs, of code == formula on the real barycentric code: every one of the 512+510 table entries equals its defining product / inverse (quantified loop invariants), q_i = (f_i - f_k)/(i-k) with the correct sign for every index distance, q_k = -sum A'(k)/A'(i) q_i, L_i(z) = A(z)/(A'(x_i)(z - x_i)) through batch inversion (itself proved), index safety of every table access.",
          "Assumed: that these formulas are the Lagrange / polynomial-quotient identities is mathematics (L9, L10), not re-proved; field-view contracts of fr arithmetic are the images of the limb-level contracts proved in package fr (A3); Inverse at limb level is a bounded stand-in; generator and solvers.",
          "DESIGN.md §8 C18", "contract-based deductive verification: quantified loop invariants against recursive spec functions over an abstract field, discharged by z3 (E-matching)"),
+ "C06": ("Deductive proof on the real decoders that acceptance is exactly the stated predicate: err == nil <=> (length, canonical X (< p), y^2 = (a x^2 - 1)/(d x^2 - 1) is a square, Legendre(1 - a x^2) = 1, and for the uncompressed form the Y bytes are the canonical encoding of the lexicographically largest root); accepted input re-encodes to the same bytes; on error the receiver is unchanged; no panic for any length. computeY / GetPointFromX proved against the curve equation.",
+         "Assumed: gnark-crypto field element methods implement F_p incl. canonical decoding and Legendre (A4); SqrtPrecomp's specification (nil iff non-square) is decided under C17; Euler criterion, uniqueness of the largest root, the subgroup criterion meaning 'order divides r' (A3); generator and solvers.",
+         "DESIGN.md §8 C06", "contract-based deductive verification: acceptance-set contracts over an abstract field, discharged by z3/cvc5"),
 }
 hooks=subprocess.run(['git','-C','/repo','log','--format=%H %s'],capture_output=True,text=True).stdout.strip().split('\n')
 hook_commits=[l.split()[0] for l in hooks if 'verif hook' in l]
